@@ -388,15 +388,57 @@ def retain_impl(F):
     return "PrefixMap::_retain" if "PrefixMap::_retain" in F.short else None
 
 
+def retain_roles(F, path):
+    """{parameter name: role} of the recursive retain worker, read off its own recursive calls (not off the names): the node is
+    the first index parameter; a recursive call for a child passes `Some(node)` where the PARENT goes and a literal side where
+    the PARENT SIDE goes, and hands its own parent / parent side on as GRAND-PARENT / GRAND-PARENT SIDE; the closure-typed
+    parameter is the predicate."""
+    from ..facts import find_all
+    b = F.bodies[path]
+    ps = [(q["pat"]["name"], q["pat"].get("id"), F.types[q["ty"]]) for q in b["thir"]["params"] if q.get("pat") and q["pat"]["k"] == "Bind"]
+    if len(ps) != 7 or "PrefixMap<" not in ps[0][2]["s"]:
+        return None
+    idx = [x for x in ps[1:] if x[2]["s"] == "usize"]
+    opts = [x for x in ps[1:] if x[2]["s"].replace("std::option::", "") == "Option<usize>"]
+    bools = [x for x in ps[1:] if x[2]["s"] == "bool"]
+    fn_ = [x for x in ps[1:] if x[2]["t"] == "param"]
+    if not (len(idx) == 1 and len(opts) == 2 and len(bools) == 2 and len(fn_) == 1):
+        return None
+    pos = {x[0]: i for i, x in enumerate(ps)}
+    by_id = {x[1]: x[0] for x in ps}
+    par = par_side = grp = grp_side = None
+    for n, _ in find_all(b["thir"]["body"], lambda n: n["k"] == "Call" and n["fun"]["k"] == "FnRef" and n["fun"]["path"] == path and len(n["args"]) == 7):
+        a = n["args"]
+        somes = [i for i, x in enumerate(a) if x["k"] == "Adt" and x.get("variant") == "Some" and x["fields"] and x["fields"][0]["e"]["k"] == "Var"
+                 and by_id.get(x["fields"][0]["e"]["id"]) == idx[0][0]]
+        lits = [i for i, x in enumerate(a) if x["k"] == "Lit" and isinstance(x.get("bool"), bool)]
+        if len(somes) != 1 or len(lits) != 1:
+            continue
+        p_, s_ = ps[somes[0]][0], ps[lits[0]][0]
+        g_ = [ps[i][0] for i, x in enumerate(a) if x["k"] == "Var" and by_id.get(x["id"]) == p_ and i != somes[0]]
+        gs_ = [ps[i][0] for i, x in enumerate(a) if x["k"] == "Var" and by_id.get(x["id"]) == s_ and i != lits[0]]
+        if len(g_) != 1 or len(gs_) != 1:
+            return None
+        if par not in (None, p_) or par_side not in (None, s_) or grp not in (None, g_[0]) or grp_side not in (None, gs_[0]):
+            return None
+        par, par_side, grp, grp_side = p_, s_, g_[0], gs_[0]
+    if None in (par, par_side, grp, grp_side) or {par, grp} != {x[0] for x in opts} or {par_side, grp_side} != {x[0] for x in bools}:
+        return None
+    return {ps[0][0]: "self", idx[0][0]: "idx", par: "par", par_side: "par_right", grp: "grp", grp_side: "grp_right", fn_[0][0]: "f"}
+
+
 def retain_program(F, height=2, with_context=True, both_grp_sides=False):
     """PrefixMap::_retain started at an inner node `idx` whose parent and grand-parent exist and are
     linked as the function's contract says (child(par,par_right)=idx, child(grp,grp_right)=par), over
     every sub-tree below idx of at most `height` levels (deeper links are absent: bounded-exhaustive)."""
     path = F.short[retain_impl(F)]
     params = fn_params(F, path)
-    if [nm for nm, _, _ in params][:6] != ["self", "idx", "par", "par_right", "grp", "grp_right"]:
-        # the bounded program sets up (idx, par, par_right, grp, grp_right); another signature needs a new program
-        raise absint.Unrecognised("the recursive retain worker %s has parameters %s" % (path, [nm for nm, _, _ in params]))
+    role = retain_roles(F, path)
+    if role is None:
+        # the bounded program sets up (idx, parent, parent side, grand-parent, grand-parent side); another contract needs a new program
+        raise absint.Unrecognised("the parameters %s of the recursive retain worker %s could not be matched to the roles (node, parent, "
+                                  "parent side, grand-parent, grand-parent side, predicate)" % ([nm for nm, _, _ in params], path))
+    params = [(role.get(nm, nm), ty, sk) for nm, ty, sk in params]
 
     def prog(it):
         args = {}
